@@ -14,7 +14,9 @@ META = {
              "emits exact symbolic-log log-densities and rational/closed-form cdfs; a named deviation (docstring sqrtcov "
              "convention) must violate SameDistribution. The harness evaluates logpdf/pdf/cdf/logd of the real distributions "
              "for every emitted case in every way of passing parameters (scalar broadcast, list, ndarray, scipy sparse, "
-             "callable conditioned later) on both sides of the dense/sparse switch (MIN_DIM_SPARSE lowered and dim 75/76)."),
+             "callable conditioned later) on both sides of the dense/sparse switch (MIN_DIM_SPARSE lowered and dim 75/76); every "
+             "matrix-shaped Gaussian input is replayed again at the magnitudes a = 4^-30, 4^30 of the covariance with the expected "
+             "value of the spec's ScalingLaw (logpdf' = logpdf - dim/2 log a, checked exactly by TLC for a = 1/4, 4)."),
     "note": ("Bounded rational lattices (dyadic scales, integer shapes, smooth integers under logarithms); that the documented "
              "formulas integrate to one is trusted mathematics; Gaussian cdf compared at scipy's integration accuracy; sparse "
              "non-diagonal Gaussians refuse logpdf without cholmod (accepted); user-defined distributions: pass-through of the "
@@ -168,6 +170,48 @@ def _eval_gaussian_cov_cdf(ctx, case, way, d, dist, x, mean, extra):
                          "cdf is not the integral of the density of the distribution this input form denotes", exp, v)
 
 
+def _eval_gaussian_scaled(ctx, case, form, shape, data, how, way, d, x, mean, extra, refusal_ok):
+    """ScalingLaw of Families.tla: the same matrix-shaped input at the magnitudes a = 4^e the spec emits (cov' = a cov, prec' =
+    prec / a, sqrtcov' = 2^e sqrtcov, sqrtprec' = sqrtprec / 2^e, x' = mean + 2^e (x - mean)) denotes the documented density
+    with logpdf' = logpdf - dim e log 2 (expected value: the spec's); the covariance the object computes is a cov."""
+    import cuqi
+    from cuqiverif import families_common as fc
+    for sc in fc.scaled_instances(case):
+        ex2 = "%s/scale=4^%d" % (extra, sc["e"])
+        xs = fc.scaled_point(mean, x, sc)
+        exp = fc.expected_logpdf({"logpdf": sc["logpdf"]})
+        st, dist, _ = fc.call(lambda: cuqi.distribution.Gaussian(np.array(mean), **{form: fc.gaussian_param(shape, data, how, pow2=sc["form_pow2"][form])}))
+        ctx.case(("logpdf_scaled", fc.case_id(case), way, ex2), facet="logpdf_scaled")
+        if st == "raise":
+            ctx.mismatch(_sig("construct", "Gaussian", way, d, case, ex2), case,
+                         "Gaussian cannot be built from a documented input form at this magnitude: %r" % (dist,))
+            continue
+        st, v, _ = fc.call(lambda: dist.logpdf(np.array(xs)))
+        if st == "raise":
+            if refusal_ok:
+                ctx.observations["refused_logpdf"] = ctx.observations.get("refused_logpdf", 0) + 1
+            else:
+                ctx.mismatch(_sig("logpdf", "Gaussian", way, d, case, ex2 + "/raises"), case,
+                             "logpdf raises for a documented parameterisation: %r" % (v,), exp, repr(v))
+            continue
+        got = fc.scalar_of(v)
+        if got is None or not fc.close(got, exp, RTOL, ATOL):
+            ctx.mismatch(_sig("logpdf", "Gaussian", way, d, case, ex2), case,
+                         "logpdf is not the documented normalised log-density at this magnitude of the covariance (scaling law: "
+                         "logpdf' = logpdf - dim/2 log a)", exp, v)
+        if case.get("rank") == d and "prec" in case and shape != "sparse":
+            a = math.ldexp(1.0, 2 * sc["e"])
+            cov = np.linalg.inv(fc.mat(case["prec"])) * a
+            st, c, _ = fc.call(lambda: dist.compute_cov())
+            if st == "value":
+                c = np.asarray(c.todense() if hasattr(c, "todense") else c, dtype=float)
+                ctx.case(("gauss_cov_scaled", fc.case_id(case), way, ex2), facet="gauss_cov")
+                if c.shape != cov.shape or not np.allclose(c / a, cov / a, rtol=1e-9, atol=1e-12):
+                    ctx.mismatch(_sig("compute_cov", "Gaussian", way, d, case, ex2), case,
+                                 "the covariance computed from this input form is not a times the covariance of the unscaled instance",
+                                 cov, c)
+
+
 # ------------------------------------------------------------------ generic families
 def check_family(ctx, un, case):
     from cuqiverif import families_common as fc
@@ -298,6 +342,8 @@ def check_gaussian(ctx, un, case):
                             _eval_cdf(ctx, case, "Gaussian", way, d, dist, x, extra=extra,
                                       tol=(1e-9, 1e-12) if d == 1 else (0.0, 2e-4))
                             _eval_gaussian_cov_cdf(ctx, case, way, d, dist, x, mean, extra)
+                        if mway == "ndarray" and shape in ("diag", "dense", "sparse"):
+                            _eval_gaussian_scaled(ctx, case, form, shape, data, how, way, d, x, mean, extra, refusal_ok)
     # callable parameters conditioned later (one per form, dense data)
     for inp in case["inputs"]:
         if inp["shape"] != "dense":
